@@ -63,8 +63,17 @@ func init() {
 				connOf := map[string]int{}
 				pid := map[int]int{}
 				l := 10 + r.Intn(40)
-				var held []int           // connections whose handler is parked before its clean-up (sched variant)
-				idOf := map[int]string{} // conn -> client id
+				var held []int                   // connections whose handler is parked before its clean-up (sched variant)
+				idOf := map[int]string{}         // conn -> client id
+				heldVer := map[int]byte{}        // parked connecting handlers: conn -> version
+				idHeld := func(id string) bool { // one parked connecting handler per client id
+					for n := range heldVer {
+						if idOf[n] == id {
+							return true
+						}
+					}
+					return false
+				}
 				forceID := ""
 				connect := func() {
 					id := pick(r, ids)
@@ -93,15 +102,31 @@ func init() {
 					if old, ok := connOf[id]; ok {
 						delete(open, old)
 					}
+					idOf[n] = id
+					if sched && !idHeld(id) && r.Intn(4) == 0 {
+						// the connecting handler is parked inside attachClient (in the authentication hook, or
+						// between Clients.Add and the CONNACK) while further ops run
+						emit(strings.TrimSpace(fmt.Sprintf("bk.connhold %s %d %d %d %s %s", pick(r, []string{"auth", "added", "added"}), n, ver, r.Intn(3)/2, hs(id), strings.Join(kv, " "))))
+						held = append(held, n)
+						heldVer[n] = ver
+						connOf[id] = n
+						return
+					}
 					emit(strings.TrimSpace(fmt.Sprintf("bk.conn %d %d %d %s %s", n, ver, r.Intn(3)/2, hs(id), strings.Join(kv, " "))))
 					open[n] = ver
 					connOf[id] = n
-					idOf[n] = id
 				}
 				release := func() {
 					if len(held) > 0 {
-						emit(fmt.Sprintf("bk.release %d", held[0]))
+						n := held[0]
+						emit(fmt.Sprintf("bk.release %d", n))
 						held = held[1:]
+						if v, ok := heldVer[n]; ok { // a connecting handler: the connection is usable from now on
+							delete(heldVer, n)
+							if connOf[idOf[n]] == n {
+								open[n] = v
+							}
+						}
 					}
 				}
 				anyOpen := func() (int, bool) {
@@ -209,7 +234,7 @@ func init() {
 						if sched && r.Intn(3) > 0 {
 							// the connection is lost, its handler is parked before the session clean-up; most of the
 							// time the same client id reconnects before the clean-up runs
-							emit(fmt.Sprintf("bk.drophold %d", c))
+							emit(fmt.Sprintf("%s %d", pick(r, []string{"bk.drophold", "bk.drophold", "bk.dropholdearly"}), c))
 							held = append(held, c)
 							delete(open, c)
 							if r.Intn(3) > 0 {
